@@ -136,10 +136,13 @@ Proof.
            pose proof (Hconserved _ eq_refl) as Hc. rewrite app_nil_r in Hc. rewrite Hc.
            eexists. split; [reflexivity|].
            specialize (Hrel _ eq_refl). rewrite app_nil_r in Hrel. exact Hrel.
-    + (* setmaxsize *)
-      destruct o; try discriminate. cbn [step] in Hstep. inversion Hstep; subst; clear Hstep.
-      unfold spec_step, observe. cbn [is_recv_op is_send_op o_out outcome_eqb].
-      eexists. split; [reflexivity|]. constructor; cbn; auto. exists pre. reflexivity.
+    + (* setmaxsize / a call refused because of its flags *)
+      destruct o; try discriminate; cbn [step] in Hstep; inversion Hstep; subst; clear Hstep.
+      * unfold spec_step, observe. cbn [is_recv_op is_send_op o_out outcome_eqb].
+        eexists. split; [reflexivity|]. constructor; cbn; auto. exists pre. reflexivity.
+      * unfold spec_step, observe. cbn [is_recv_op is_send_op o_out o_buf o_cnt o_left outcome_eqb exn_eqb andb].
+        unfold getrecvbuffer. rewrite Hrem, conserved_ok by eauto. rewrite Htmo, Nat.eqb_refl. cbn [andb].
+        eexists. split; [reflexivity|]. constructor; auto. eauto.
 Qed.
 
 Lemma step_wire_grows s o out s' : step s o = (out, s') -> exists ext, wire s' = wire s ++ ext.
@@ -164,6 +167,7 @@ Proof.
       destruct (sock_recv _ _) as [[?|] ?]; [|inversion H; reflexivity].
       destruct (Nat.ltb _ _); inversion H; reflexivity.
     + inversion H. reflexivity.
++ inversion H. reflexivity.
 Qed.
 
 Lemma run_wire_grows len : forall ops s obs sf,
